@@ -1,7 +1,7 @@
 (* Correspondence obligations for C11: the model's outputs on the inputs the implementation ran.
    Each `*_mismatches` returns the indices of the cases on which the model and the observation differ. *)
 From Coq Require Import ZArith NArith Bool List.
-From PcoreV Require Import Model.Base Model.Json Model.Pb Model.PbMem Model.JsonSer.
+From PcoreV Require Import Model.Base Model.Json Model.Pb Model.PbMem Model.JsonSer Model.JsonStr.
 Import ListNotations.
 Open Scope Z_scope.
 
@@ -85,3 +85,28 @@ Inductive sercase := SE (c : scfg) (v : sval) (evs : list ev).
 Definition ser_check (x : sercase) : bool :=
   match x with SE c v evs => evs_eqb [ser_top c v] evs end.
 Definition ser_mismatches (cs : list sercase) : list N := failing ser_check cs.
+
+(* ---- string lexemes, byte by byte (Model/JsonStr.v) *)
+Inductive lcase :=
+| LW (s : str) (marshal written : list N) (decoded : option str)
+    (* json.Marshal(s); the bytes the real jsonStreamer wrote for the String s (as top-level value, array element,
+       hash value, hash key, or through DataToJson - the route is in the replay input); json.Unmarshal of those bytes *)
+| LR (lex : list N) (decoded : option str).
+    (* any candidate lexeme (random, damaged): json.Unmarshal(lex, &string) *)
+
+Definition opt_str_eqb (a b : option str) : bool :=
+  match a, b with
+  | Some x, Some y => str_eqb x y
+  | None, None => true
+  | _, _ => false
+  end.
+
+Definition str_lexeme_check (c : lcase) : bool :=
+  match c with
+  | LW s m w d =>
+      list_eqb N.eqb (json_escape s) m &&                 (* the model of json.Marshal(string), byte for byte *)
+      opt_str_eqb (json_unquote w) d &&                   (* the model of the string reader on what was written *)
+      opt_str_eqb (json_unquote (write_string s)) d       (* jsonstreamer.go:108 write, modulo decoding *)
+  | LR lex d => opt_str_eqb (json_unquote lex) d
+  end.
+Definition str_lexeme_mismatches (cs : list lcase) : list N := failing str_lexeme_check cs.
